@@ -32,6 +32,54 @@ pub fn child_main(dir: &str) {
     std::process::exit(0);
 }
 
+/// The real server in a child process (`--server-child`), optionally with widened lock windows.
+pub struct ServerChild {
+    pub child: std::process::Child,
+    pub addr: SocketAddr,
+    pub rx: std::sync::mpsc::Receiver<String>,
+    pub dir: std::path::PathBuf,
+}
+
+impl ServerChild {
+    pub fn spawn(set: &CertSet, lock_windows_ms: Option<&str>) -> Result<ServerChild, String> {
+        let dir = certs::write_dir(&set.ca, &set.server);
+        let exe = std::env::current_exe().map_err(|e| e.to_string())?;
+        let mut cmd = Command::new(exe);
+        if let Some(ms) = lock_windows_ms {
+            cmd.env("VERIF_TOKIO_LOCK_WINDOWS_MS", ms.to_string());
+        }
+        let mut child = cmd.args(["--server-child", dir.to_str().unwrap()]).stdin(Stdio::null()).stdout(Stdio::piped()).stderr(Stdio::null()).spawn().map_err(|e| e.to_string())?;
+        let stdout = child.stdout.take().unwrap();
+        let (tx, rx) = std::sync::mpsc::channel::<String>();
+        std::thread::spawn(move || {
+            for l in BufReader::new(stdout).lines().map_while(Result::ok) {
+                let _ = tx.send(l);
+            }
+        });
+        let t0 = Instant::now();
+        let addr: SocketAddr = loop {
+            match rx.recv_timeout(Duration::from_millis(200)) {
+                Ok(l) if l.starts_with("ADDR ") => break l[5..].parse().map_err(|e| format!("{e}"))?,
+                Ok(_) => {}
+                Err(_) if t0.elapsed() > Duration::from_secs(20) => {
+                    let _ = child.kill();
+                    let _ = child.wait();
+                    return Err("no address within 20 s".into());
+                }
+                Err(_) => {}
+            }
+        };
+        Ok(ServerChild { child, addr, rx, dir })
+    }
+
+    /// for users that only need a server for a while
+    pub fn stop(mut self) {
+        let _ = self.child.kill();
+        let _ = self.child.wait();
+        let _ = std::fs::remove_dir_all(&self.dir);
+    }
+}
+
 fn reg(role: &str, t: &TopicName) -> Frame {
     match role {
         "publisher" => Frame::RegisterPublisher(PublisherPayload { topic: t.clone(), retention_policy: 0, operations: vec![] }),
@@ -44,30 +92,11 @@ fn reg(role: &str, t: &TopicName) -> Frame {
 async fn cell(set: Arc<CertSet>, state: String) -> Result<String, Fail> {
     let class = format!("state={state}");
     let setup = |what: &str, e: String| fail("setup", what, format!("{what}: {e}"));
-    let dir = certs::write_dir(&set.ca, &set.server);
-    let exe = std::env::current_exe().map_err(|e| setup("exe", e.to_string()))?;
-    let mut child = Command::new(exe).args(["--server-child", dir.to_str().unwrap()]).stdin(Stdio::null()).stdout(Stdio::piped()).stderr(Stdio::null()).spawn().map_err(|e| setup("spawn", e.to_string()))?;
-    let stdout = child.stdout.take().unwrap();
-    let (tx, rx) = std::sync::mpsc::channel::<String>();
-    std::thread::spawn(move || {
-        for l in BufReader::new(stdout).lines().map_while(Result::ok) {
-            let _ = tx.send(l);
-        }
-    });
-    let addr: SocketAddr = {
-        let t0 = Instant::now();
-        loop {
-            match rx.recv_timeout(Duration::from_millis(200)) {
-                Ok(l) if l.starts_with("ADDR ") => break l[5..].parse().map_err(|e| setup("addr", format!("{e}")))?,
-                Ok(_) => {}
-                Err(_) if t0.elapsed() > Duration::from_secs(20) => {
-                    let _ = child.kill();
-                    return Err(setup("child", "no address within 20 s".into()));
-                }
-                Err(_) => {}
-            }
-        }
-    };
+    // "widened" states: the server's runtime makes every task wait 10 ms before a nested or a
+    // repeated acquisition of a tokio mutex (seam in the vendored tokio), so that two paths
+    // taking the same two locks in opposite orders really meet
+    let widened = state.starts_with("widened-");
+    let ServerChild { mut child, addr, rx, dir } = ServerChild::spawn(&set, if state.starts_with("widened-staggered-") { Some("10,30") } else if widened { Some("10") } else { None }).map_err(|e| setup("child", e))?;
     // bring the server into the state
     let raw = RawConn::connect(addr, &set.ca, Some(&set.client)).await.map_err(|e| setup("connect", e.to_string()))?;
     let t = TopicName::try_from("/c16ns/topic").unwrap();
@@ -78,7 +107,7 @@ async fn cell(set: Arc<CertSet>, state: String) -> Result<String, Fail> {
         "publisher-only" => vec![("publisher", &t)],
         "subscriber-only" => vec![("subscriber", &t)],
         "pubsub-idle" | "pubsub-after-traffic" | "pubsub-peers-gone" | "registration-parked" | "slow-subscriber-two-topics" => vec![("subscriber", &t), ("publisher", &t)],
-        s if s.starts_with("burst-of-new-topics") => vec![("subscriber", &t), ("publisher", &t)],
+        s if s.starts_with("burst-of-new-topics") || s.starts_with("widened-") => vec![("subscriber", &t), ("publisher", &t)],
         "replier-only" => vec![("replier", &t)],
         "requestor-only" => vec![("requestor", &t)],
         "reqrep-both" | "reqrep-rejected-replier" => vec![("replier", &t), ("requestor", &t)],
@@ -128,13 +157,13 @@ async fn cell(set: Arc<CertSet>, state: String) -> Result<String, Fail> {
     // first registrations of ever-new topics keep arriving while the signal is delivered
     let mut burst_tasks = Vec::new();
     let registered = Arc::new(std::sync::atomic::AtomicUsize::new(0));
-    if state.starts_with("burst-of-new-topics") {
-        for k in 0..32 {
+    if state.starts_with("burst-of-new-topics") || widened {
+        for k in 0..(if widened { 4 } else { 32 }) {
             let Ok(c) = RawConn::connect(addr, &set.ca, Some(&set.client)).await else { continue };
             let c = Arc::new(c);
             // eight registrations in flight per connection, so that the server always has
             // handlers queueing for its topic table
-            for w in 0..8 {
+            for w in 0..(if widened { 4 } else { 8 }) {
                 let c = c.clone();
                 let tag = state.clone();
                 let registered = registered.clone();
@@ -260,6 +289,7 @@ fn cells(tier: &str) -> Vec<Value> {
     let trials = if tier == "thorough" { 48 } else { 16 };
     let bursts: Vec<String> = (1..=trials).map(|i| format!("burst-of-new-topics-{i}")).collect();
     let mut all: Vec<&str> = bursts.iter().map(|s| s.as_str()).collect();
+    all.extend(["widened-burst-of-new-topics-1", "widened-burst-of-new-topics-2", "widened-staggered-burst-of-new-topics-1", "widened-staggered-burst-of-new-topics-2"]);
     all.extend(REST);
     all.iter().enumerate().map(|(i, s)| json!({"cell": i, "state_at_sigint": s})).collect()
 }
@@ -271,7 +301,7 @@ pub async fn run(tier: &str, replaying: bool) -> ! {
     let set = Arc::new(crate::certs::bundled());
     let cs = filter_cells(cells(tier));
     // the burst repetitions one at a time (the race they are after needs the cores), the rest four at a time
-    let (bursts, rest): (Vec<Value>, Vec<Value>) = cs.into_iter().partition(|c| c["state_at_sigint"].as_str().unwrap().starts_with("burst-"));
+    let (bursts, rest): (Vec<Value>, Vec<Value>) = cs.into_iter().partition(|c| { let s = c["state_at_sigint"].as_str().unwrap(); s.starts_with("burst-") || s.starts_with("widened-") });
     let mut outs = Vec::new();
     for (group, conc) in [(bursts, 1), (rest, 4)] {
         let set = set.clone();
@@ -291,7 +321,7 @@ pub async fn run(tier: &str, replaying: bool) -> ! {
     finish(
         rep,
         outs,
-        "the real server in a child process, brought by raw peers into each of 14 states (16 repetitions, thorough 48, one at a time, of: first registrations of ever-new topics, 256 in flight over 32 connections, while the signal is delivered - schedules SAMPLED by repetition; two topics, one of whose routers holds two 200 KiB messages for a slowly accepting subscriber that starts reading at the signal and must receive at least the first; no topic; publisher only; subscriber only; idle pub/sub; pub/sub right after a burst of traffic; pub/sub whose peers have left; replier only; requestor only; both; a rejected second replier; pub/sub and request/reply topics together; a registration whose answer cannot be written because the peer grants no flow-control credit), then SIGINT: the process must exit with status 0 within 20 s",
+        "the real server in a child process, brought by raw peers into each of 15 kinds of state (16 repetitions, thorough 48, one at a time, of: first registrations of ever-new topics, 256 in flight over 32 connections, while the signal is delivered - schedules SAMPLED by repetition; four more with 16 in flight against a child whose tasks wait 10 ms (two of them: 10 and 30 ms in turn) before a nested or repeated acquisition of a tokio mutex, which puts the handlers into the window between their two locks for certain; two topics, one of whose routers holds two 200 KiB messages for a slowly accepting subscriber that starts reading at the signal and must receive at least the first; no topic; publisher only; subscriber only; idle pub/sub; pub/sub right after a burst of traffic; pub/sub whose peers have left; replier only; requestor only; both; a rejected second replier; pub/sub and request/reply topics together; a registration whose answer cannot be written because the peer grants no flow-control credit), then SIGINT: the process must exit with status 0 within 20 s",
         "complements the router-level exploration of C16 (close at every point of every schedule) with Server::shutdown itself: close_channel on every topic, join of all router tasks, endpoint close",
         json!({}),
         replaying,
